@@ -290,6 +290,27 @@ func checkC14(p *Program, r *Report) {
 					nOut++
 					okNE := lc.Entails(f, lc.LenLin(c.Call.Args[1]).scale(-1).addConst(1))
 					r.Add("C14.content", cname, "output scripts are added only when non-empty", c.Pos(), okNE, "len(script) ≥ 1 on every path to the insertion")
+					// … and for no other reason: the only condition on this output is the emptiness test
+					extra := ""
+					for _, cd := range conds {
+						s := exprString(cd.V)
+						if !strings.Contains(s, "PkScript") {
+							continue
+						}
+						bo, _, isB := condBinOp(cd)
+						isLenTest := false
+						if isB {
+							if lc2, ok := bo.X.(*ssa.Call); ok && isBuiltin(&lc2.Call, "len") {
+								if k, ok := constInt(bo.Y); ok && k == 0 {
+									isLenTest = true
+								}
+							}
+						}
+						if !isLenTest {
+							extra = s
+						}
+					}
+					r.Add("C14.content", cname, "every non-empty output script is included", c.Pos(), extra == "", "additional exclusion condition: "+extra)
 				} else {
 					nIn++
 					okCB := false
@@ -329,7 +350,8 @@ func checkC14(p *Program, r *Report) {
 		}
 		r.Add("C14.content", "builder.(*GCSBuilder)", "entries are de-duplicated through a map keyed by the entry bytes", content.Pos(), okMap, "data[string(entry)] = struct{}{}")
 	}
-	r.Floor("C14.content", 3)
+	r.Floor("C14.content", 4)
+	c14mulhi(p, r)
 
 	// ---- C14.hash
 	if gh := p.Func("gcs/builder", "GetFilterHash"); gh != nil {
@@ -520,4 +542,64 @@ func derefTypeOrSelf(t types.Type) types.Type {
 		return p.Elem()
 	}
 	return t
+}
+
+// c14mulhi recognises the range-reduction function as the high 64 bits of the
+// 128-bit product v·N computed from 32-bit halves (schoolbook form), or as
+// math/bits.Mul64.  Another algorithm is reported as undecided.
+func c14mulhi(p *Program, r *Report) {
+	build := p.Func("gcs", "BuildGCSFilter")
+	if build == nil {
+		r.Unresolved("C14.mulhi", "gcs.BuildGCSFilter")
+		return
+	}
+	var red *ssa.Function
+	for _, b := range build.Blocks {
+		for _, in := range b.Instrs {
+			if c, ok := in.(*ssa.Call); ok && c.Call.StaticCallee() != nil && p.InRepo(c.Call.StaticCallee()) && len(c.Call.Args) == 3 {
+				red = c.Call.StaticCallee()
+			}
+		}
+	}
+	if red == nil {
+		r.Unresolved("C14.mulhi", "range-reduction function called by the builder")
+		return
+	}
+	rets := returnsOf(red)
+	if len(rets) != 1 {
+		r.Undecided("C14.mulhi", FnName(red), "reduction is ⌊v·N / 2^64⌋", red.Pos(), "several returns")
+		return
+	}
+	tb := NewTermBuilder(p, red)
+	got := tb.Term(rets[0].Results[0]).String()
+	// reference: with vhi = v/2^32, vlo = v mod 2^32:
+	//   vhi·nHi + (vhi·nLo)/2^32 + (nHi·vlo)/2^32 + ((vhi·nLo mod 2^32) + (nHi·vlo mod 2^32) + (vlo·nLo)/2^32)/2^32
+	vhi, vlo := "/(P0,#4294967296)", "nar32(P0)"
+	mid1, mid2, lo := "*("+vhi+",P2)", "*("+vlo+",P1)", "*("+vlo+",P2)"
+	_ = lo
+	hasAll := func(s string, parts ...string) bool {
+		for _, q := range parts {
+			if !strings.Contains(s, q) {
+				return false
+			}
+		}
+		return true
+	}
+	// structural requirements (order-insensitive thanks to the canonical sort of + and *)
+	okShape := strings.HasPrefix(got, "+(") &&
+		hasAll(got, "*(/(P0,#4294967296),P1)", // vhi·nHi
+			"/(*(/(P0,#4294967296),P2),#4294967296)", // (vhi·nLo) >> 32
+			"nar32(*(/(P0,#4294967296),P2))",         // low half of vhi·nLo in the carry
+			"nar32(P0)")
+	// the carry: (lo32(mid1) + lo32(mid2) + (vlo·nLo >> 32)) >> 32 — the two low halves are narrowed separately
+	carryOK := strings.Contains(got, "/(+(") && strings.Count(got, "nar32(*(") >= 2
+	_ = mid1
+	_ = mid2
+	usesMul64 := strings.Contains(got, "math/bits.Mul64")
+	if !okShape && !usesMul64 {
+		r.Undecided("C14.mulhi", FnName(red), "reduction is ⌊v·N / 2^64⌋", red.Pos(), "unrecognised multiplication algorithm: "+got)
+		return
+	}
+	r.Add("C14.mulhi", FnName(red), "reduction is the high 64 bits of v·N with the carry of the two middle products' low halves", red.Pos(), usesMul64 || carryOK, got)
+	r.Floor("C14.mulhi", 1)
 }
